@@ -258,3 +258,472 @@ func ruleResultFresh(r *Run) {
 	}
 	r.Min("tobytes_success_returns", n, 1)
 }
+
+// ---------------------------------------------------------------------------
+// R-RANGE-COPY (C18 C09): `for _, cell := range row.Cells { f(&cell) }` hands f the address of a
+// COPY of the element.  Whatever f assigns to a field of *cell (cell.Paragraphs = longer slice)
+// changes the copy only; the table keeps the old value.  Decided structurally: the address of a
+// by-value range variable must not reach a function that assigns to a direct field of that
+// parameter, unless the variable is written back into the collection.
+// ---------------------------------------------------------------------------
+
+func ruleRangeCopy(r *Run) {
+	p := r.P
+	n := 0
+	for _, fn := range p.ModFuncs() {
+		if fn.Pkg == nil || fn.Pkg.Pkg.Path() != pkgDoc {
+			continue
+		}
+		loops := naturalLoops(fn)
+		if len(loops) == 0 {
+			continue
+		}
+		allInstrs(fn, func(in ssa.Instruction) {
+			al, ok := in.(*ssa.Alloc)
+			if !ok || al.Referrers() == nil {
+				return
+			}
+			if n0 := isModStruct(p, al.Type()); n0 == nil {
+				return
+			}
+			// the variable is (only) assigned from an element of a collection that is being ranged over
+			var elemStores []*ssa.Store
+			other := false
+			for _, u := range *al.Referrers() {
+				st, ok := u.(*ssa.Store)
+				if !ok || st.Addr != ssa.Value(al) {
+					continue
+				}
+				isElem := false
+				switch v := st.Val.(type) {
+				case *ssa.UnOp:
+					if v.Op == token.MUL {
+						if _, ok := v.X.(*ssa.IndexAddr); ok {
+							isElem = true
+						}
+					}
+				case *ssa.Extract:
+					if _, ok := v.Tuple.(*ssa.Next); ok {
+						isElem = true
+					}
+				case *ssa.Index:
+					isElem = true
+				}
+				if isElem {
+					elemStores = append(elemStores, st)
+				} else {
+					other = true
+				}
+			}
+			if len(elemStores) == 0 || other {
+				return
+			}
+			inLoop := false
+			for _, l := range loops {
+				if l.Body[elemStores[0].Block()] {
+					inLoop = true
+				}
+			}
+			if !inLoop {
+				return
+			}
+			// written back? (coll[i] = x)
+			writtenBack := false
+			for _, u := range *al.Referrers() {
+				if ld, ok := u.(*ssa.UnOp); ok && ld.Op == token.MUL && ld.Referrers() != nil {
+					for _, u2 := range *ld.Referrers() {
+						if st, ok := u2.(*ssa.Store); ok && st.Val == ssa.Value(ld) {
+							if _, isIdx := st.Addr.(*ssa.IndexAddr); isIdx {
+								writtenBack = true
+							}
+						}
+					}
+				}
+			}
+			// calls that receive the address
+			for _, u := range *al.Referrers() {
+				c, ok := u.(ssa.CallInstruction)
+				if !ok {
+					continue
+				}
+				for ai, a := range c.Common().Args {
+					if a != ssa.Value(al) {
+						continue
+					}
+					var callees []*ssa.Function
+					if cal := staticCallee(c); cal != nil {
+						callees = append(callees, cal)
+					} else if !c.Common().IsInvoke() {
+						for g := range p.dynamicCallees(fn, c) {
+							callees = append(callees, g)
+						}
+						// a callback parameter of fn: the function literals handed in at fn's call sites
+						if par, ok := c.Common().Value.(*ssa.Parameter); ok {
+							pi := paramIndex(fn, par)
+							for _, cs := range staticCallSites(p, fn) {
+								if pi >= 0 && pi < len(cs.Common().Args) {
+									switch fv := cs.Common().Args[pi].(type) {
+									case *ssa.MakeClosure:
+										callees = append(callees, fv.Fn.(*ssa.Function))
+									case *ssa.Function:
+										callees = append(callees, fv)
+									}
+								}
+							}
+						}
+					}
+					for _, cal := range callees {
+						if !p.inModule(cal) || len(cal.Blocks) == 0 {
+							continue
+						}
+						pi := ai
+						if c.Common().IsInvoke() {
+							continue
+						}
+						if cal.Signature.Recv() != nil && staticCallee(c) != nil {
+							// receiver is Params[0] and Args[0]: indices agree
+						}
+						if pi >= len(cal.Params) {
+							continue
+						}
+						par := cal.Params[pi]
+						var asg *ssa.Store
+						allInstrs(cal, func(in2 ssa.Instruction) {
+							st, ok := in2.(*ssa.Store)
+							if !ok {
+								return
+							}
+							if fa, ok := st.Addr.(*ssa.FieldAddr); ok && fa.X == ssa.Value(par) {
+								asg = st
+							}
+						})
+						if asg == nil {
+							continue
+						}
+						n++
+						fv, _ := fieldOfAddr(asg.Addr)
+						fname := "?"
+						if fv != nil {
+							fname = fv.Name()
+						}
+						r.Check("range-copy", fmt.Sprintf("%s:&%s->%s", shortName(topLevel(fn)), al.Comment, shortName(topLevel(cal))), c.Pos(), writtenBack,
+							fmt.Sprintf("%s hands %s the address of its by-value range variable %s; %s assigns to field %s of it (at %s): the assignment changes the copy, not the element of the collection%s", shortName(topLevel(fn)), shortName(topLevel(cal)), al.Comment, shortName(topLevel(cal)), fname, p.pos(asg.Pos()), map[bool]string{true: " — the variable is written back afterwards", false: ", and the variable is never written back"}[writtenBack]))
+					}
+				}
+			}
+		})
+	}
+	r.Count("range_copies_handed_to_assigning_functions", n)
+}
+
+// ---------------------------------------------------------------------------
+// R-REGISTRY-KEEPS (C13): numbering definitions and instances are referred to by id from
+// paragraphs anywhere in the document (body, table cells, nested tables, content controls,
+// headers).  The library has no way to know that an id is no longer used, so nothing may ever be
+// taken out of the numbering registry: a definition that disappears leaves w:numId references
+// that resolve to nothing.  (Notes are different: RemoveFootnote/RemoveEndnote delete the note the
+// caller names.)
+// ---------------------------------------------------------------------------
+
+func ruleRegistryKeeps(r *Run) {
+	p := r.P
+	nm := p.Named(pkgDoc, "NumberingManager")
+	if nm == nil {
+		r.Unresolved("document.NumberingManager")
+		return
+	}
+	adds := 0
+	for _, fn := range p.ModFuncs() {
+		if fn.Pkg == nil || fn.Pkg.Pkg.Path() != pkgDoc {
+			continue
+		}
+		allInstrs(fn, func(in ssa.Instruction) {
+			switch x := in.(type) {
+			case *ssa.MapUpdate:
+				if ch, _ := addrChain(x.Map); len(ch) > 0 && ch[len(ch)-1] != nil && fieldOwner(p, ch[len(ch)-1]) == nm {
+					adds++
+				}
+			case *ssa.Call:
+				b, ok := x.Call.Value.(*ssa.Builtin)
+				if !ok || b.Name() != "delete" || len(x.Call.Args) < 1 {
+					return
+				}
+				ch, _ := addrChain(x.Call.Args[0])
+				if len(ch) == 0 || ch[len(ch)-1] == nil || fieldOwner(p, ch[len(ch)-1]) != nm {
+					return
+				}
+				r.Check("registry-keeps", shortName(topLevel(fn))+":"+ch[len(ch)-1].Name(), x.Pos(), false,
+					fmt.Sprintf("%s deletes an entry of NumberingManager.%s: list paragraphs anywhere in the document (nested tables, content controls, headers) may still carry its id, and numbering.xml is regenerated from the registry — the reference then resolves to nothing", shortName(topLevel(fn)), ch[len(ch)-1].Name()))
+			case *ssa.Store:
+				// a registry map replaced by a smaller one outside construction/cloning
+				fv, _ := fieldOfAddr(x.Addr)
+				if fv == nil || fieldOwner(p, fv) != nm {
+					return
+				}
+				if _, isMap := fv.Type().Underlying().(*types.Map); !isMap {
+					return
+				}
+				fa, _ := x.Addr.(*ssa.FieldAddr)
+				if fa != nil {
+					if _, fresh := stripLoads(fa.X).(*ssa.Alloc); fresh {
+						return // the registry object is being built here
+					}
+				}
+				if mk, ok := x.Val.(*ssa.MakeMap); ok && mk != nil {
+					// lazily created when nil is fine; anything else replaces the registry
+					// created lazily: the store is control dependent on a test of the same field against nil
+					nilGuarded := false
+					for _, c := range controlConds(x) {
+						if bo, ok := c.(*ssa.BinOp); ok && (bo.Op == token.EQL || bo.Op == token.NEQ) && (isNilConst(bo.X) || isNilConst(bo.Y)) {
+							side := bo.X
+							if isNilConst(side) {
+								side = bo.Y
+							}
+							if ld, ok := side.(*ssa.UnOp); ok && ld.Op == token.MUL {
+								if f2, _ := fieldOfAddr(ld.X); f2 == fv {
+									nilGuarded = true
+								}
+							}
+						}
+					}
+					if nilGuarded {
+						return
+					}
+				}
+				r.Check("registry-keeps", shortName(topLevel(fn))+":"+fv.Name()+":replaced", x.Pos(), false,
+					fmt.Sprintf("%s replaces the registry map NumberingManager.%s of an existing manager: definitions registered before are dropped while paragraphs still refer to them", shortName(topLevel(fn)), fv.Name()))
+			}
+		})
+	}
+	r.Trivial("registry-keeps", "NumberingManager", nm.Obj().Pos(), true, "no function deletes from, or replaces, the numbering registry maps")
+	r.Min("numbering_registry_insertions", adds, 2)
+}
+
+// ---------------------------------------------------------------------------
+// R-SINGLE-LINE (C20): a table cell and an ATX/Setext heading are one-line constructs of Markdown.
+// (a) the text of a cell must have its line breaks removed on EVERY path that produces it (a fast
+//     path that skips the clean-up splits the row);
+// (b) the text of a heading must not pass through a function that inserts line breaks (line
+//     wrapping): the tail of a wrapped heading becomes a paragraph of its own.
+// ---------------------------------------------------------------------------
+
+var nlPatternFuncs = map[string]bool{
+	"strings.Split": true, "strings.SplitN": true, "strings.ReplaceAll": true, "strings.Replace": true, "strings.Contains": true,
+	"strings.Index": true, "strings.TrimRight": true, "strings.TrimSuffix": true, "strings.Trim": true, "strings.HasSuffix": true,
+	"strings.Count": true, "strings.TrimLeft": true, "strings.TrimPrefix": true, "strings.HasPrefix": true, "strings.ContainsAny": true,
+	"strings.IndexByte": true, "strings.LastIndex": true, "strings.NewReplacer": true, "strings.SplitAfter": true, "strings.ContainsRune": true,
+}
+
+// insertsNewlines: f returns a string and puts a constant containing a line break into what it
+// builds (as opposed to using "\n" as a pattern to search, split or replace).
+func insertsNewlines(p *Program, f *ssa.Function) bool {
+	if f == nil || !p.inModule(f) || len(f.Blocks) == 0 || f.Signature.Results().Len() == 0 || !isStringType(f.Signature.Results().At(0).Type()) {
+		return false
+	}
+	found := false
+	for _, g := range withClosures(f) {
+		allInstrs(g, func(in ssa.Instruction) {
+			has := false
+			for _, op := range in.Operands(nil) {
+				if *op == nil {
+					continue
+				}
+				if s, ok := constString(*op); ok && strings.Contains(s, "\n") {
+					has = true
+				}
+			}
+			if !has {
+				return
+			}
+			if c, ok := in.(ssa.CallInstruction); ok && nlPatternFuncs[calleeName(c)] {
+				return
+			}
+			found = true
+		})
+	}
+	return found
+}
+
+func newlineFree(p *Program, v ssa.Value, depth int) bool {
+	if depth > 8 || v == nil {
+		return false
+	}
+	v = stripConv(v)
+	switch x := v.(type) {
+	case *ssa.Const:
+		s, ok := constString(x)
+		return ok && !strings.Contains(s, "\n")
+	case *ssa.Phi:
+		for _, e := range x.Edges {
+			if !newlineFree(p, e, depth+1) {
+				return false
+			}
+		}
+		return true
+	case *ssa.UnOp:
+		if x.Op == token.MUL {
+			if al, ok := x.X.(*ssa.Alloc); ok && al.Referrers() != nil {
+				n, okAll := 0, true
+				for _, u := range *al.Referrers() {
+					if st, ok := u.(*ssa.Store); ok && st.Addr == ssa.Value(al) {
+						n++
+						if !newlineFree(p, st.Val, depth+1) {
+							okAll = false
+						}
+					}
+				}
+				return n > 0 && okAll
+			}
+		}
+	case *ssa.Call:
+		switch calleeName(x) {
+		case "strings.TrimSpace", "strings.Trim", "strings.TrimLeft", "strings.TrimRight", "strings.TrimPrefix", "strings.TrimSuffix", "strings.ToLower", "strings.ToUpper":
+			return newlineFree(p, x.Call.Args[0], depth+1)
+		case "strings.ReplaceAll":
+			if old, ok := constString(x.Call.Args[1]); ok && old == "\n" {
+				if nw, ok := constString(x.Call.Args[2]); ok && !strings.Contains(nw, "\n") {
+					return true
+				}
+			}
+			return newlineFree(p, x.Call.Args[0], depth+1)
+		case "strings.Replace":
+			if old, ok := constString(x.Call.Args[1]); ok && old == "\n" {
+				if nw, ok := constString(x.Call.Args[2]); ok && !strings.Contains(nw, "\n") {
+					if k, ok := constInt(x.Call.Args[3]); ok && k < 0 {
+						return true
+					}
+				}
+			}
+			return newlineFree(p, x.Call.Args[0], depth+1)
+		case "strings.Join":
+			// Join(Fields(x), " "): Fields splits on every white space, line breaks included
+			if sep, ok := constString(x.Call.Args[1]); ok && !strings.Contains(sep, "\n") {
+				if fc, ok := stripConv(x.Call.Args[0]).(*ssa.Call); ok && calleeName(fc) == "strings.Fields" {
+					return true
+				}
+			}
+			return false
+		case "(*strings.Replacer).Replace":
+			return false
+		}
+		if cal := staticCallee(x); cal != nil && p.inModule(cal) && len(cal.Blocks) > 0 {
+			rets := returnsOf(cal)
+			if len(rets) == 0 {
+				return false
+			}
+			for _, ret := range rets {
+				if len(ret.Results) == 0 || !newlineFree(p, ret.Results[0], depth+1) {
+					return false
+				}
+			}
+			return true
+		}
+	}
+	return false
+}
+
+func ruleSingleLine(r *Run) {
+	p := r.P
+	docCell := p.Named(pkgDoc, "TableCell")
+	if docCell == nil {
+		r.Unresolved("document.TableCell")
+		return
+	}
+	reach := p.staticReach(p.exportedAPI(pkgMd)...)
+	nCell := 0
+	for _, f := range p.ModFuncs() {
+		if f.Pkg == nil || f.Pkg.Pkg.Path() != pkgMd || f.Parent() != nil || !reach[f] {
+			continue
+		}
+		if f.Signature.Results().Len() != 1 || !isStringType(f.Signature.Results().At(0).Type()) {
+			continue
+		}
+		takesCell := false
+		for _, par := range f.Params {
+			if isModStruct(p, par.Type()) == docCell {
+				takesCell = true
+			}
+		}
+		if !takesCell {
+			continue
+		}
+		nCell++
+		bad := ""
+		for _, ret := range returnsOf(f) {
+			if !newlineFree(p, retResult(ret, 0), 0) {
+				bad = p.pos(ret.Pos())
+			}
+		}
+		if bad != "" {
+			// the clean-up may be the caller's: every call site must then clean the result
+			sites := staticCallSites(p, f)
+			cleaned := len(sites) > 0
+			for _, cs := range sites {
+				cv, ok := cs.(*ssa.Call)
+				if !ok || cv.Referrers() == nil {
+					cleaned = false
+					continue
+				}
+				okSite := false
+				for _, u := range *cv.Referrers() {
+					if uc, ok := u.(*ssa.Call); ok && newlineFree(p, uc, 0) {
+						okSite = true
+					}
+				}
+				if !okSite {
+					cleaned = false
+				}
+			}
+			if cleaned {
+				bad = ""
+			}
+		}
+		r.Check("single-line", shortName(f)+":cell", f.Pos(), bad == "",
+			fmt.Sprintf("%s produces the text of a table cell; a Markdown table row is one line, so every path must remove the line breaks of the cell's text: %s", shortName(f), map[bool]string{true: "they all do", false: "the value returned at " + bad + " has not passed a line-break removal (strings.ReplaceAll(s, \"\\n\", …) or equivalent) — a cell whose text contains a line break splits the row"}[bad == ""]))
+	}
+	r.Min("cell_text_functions", nCell, 1)
+	// (b) headings
+	nHead := 0
+	sl := newSlicer(p)
+	sl.dataOnly = true
+	for _, f := range p.ModFuncs() {
+		if f.Pkg == nil || f.Pkg.Pkg.Path() != pkgMd || f.Parent() != nil || !reach[f] {
+			continue
+		}
+		isHeading := false
+		allInstrs(f, func(in ssa.Instruction) {
+			if c, ok := in.(*ssa.Call); ok && calleeName(c) == "strings.Repeat" && len(c.Call.Args) == 2 {
+				if s, ok := constString(c.Call.Args[0]); ok && s == "#" {
+					isHeading = true
+				}
+			}
+		})
+		if !isHeading {
+			continue
+		}
+		nHead++
+		bad := ""
+		allInstrs(f, func(in ssa.Instruction) {
+			c, ok := in.(*ssa.Call)
+			if !ok || !isStringType(c.Type()) {
+				return
+			}
+			cal := staticCallee(c)
+			if cal == nil || !p.inModule(cal) {
+				return
+			}
+			if insertsNewlines(p, cal) {
+				bad = shortName(cal)
+				return
+			}
+			for v := range sl.Slice(c).Vals {
+				if ic, ok := v.(*ssa.Call); ok && insertsNewlines(p, staticCallee(ic)) {
+					bad = shortName(staticCallee(ic)) + " (through " + shortName(cal) + ")"
+				}
+			}
+		})
+		r.Check("single-line", shortName(f)+":heading", f.Pos(), bad == "",
+			fmt.Sprintf("%s writes a heading, a one-line construct; its text %s", shortName(f), map[bool]string{true: "does not pass through anything that inserts line breaks", false: "passes through " + bad + ", which inserts line breaks: the part after the first break becomes a paragraph of its own when the Markdown is read back"}[bad == ""]))
+	}
+	r.Min("heading_writers", nHead, 1)
+}
